@@ -320,22 +320,22 @@ def _supported(P) -> Set[str]:
 
 def r1_child_kwargs(P, rep, ctx):
     fi = P.func(f"{W}.MetadorNode._child_node_kwargs")
-    rets = [x.value for x in walk_local(fi.node) if isinstance(x, ast.Return)]
+    cf = F(ctx, fi)
     ok_flags = ok_lp = False
-    for r in rets:
-        if not isinstance(r, ast.Dict):
+    for _, r in cf.returns():
+        if r is None:
             continue
-        for k, v in zip(r.keys, r.values):
-            if k is None and isinstance(v, ast.DictComp):
-                gen = v.generators[0]
-                src_ok = norm(gen.iter) in ("self.acl.items()", "self._self_flags.items()")
-                tgt = [t.id for t in gen.target.elts] if isinstance(gen.target, ast.Tuple) else []
-                filt_ok = all(isinstance(c, ast.Name) and len(tgt) == 2 and c.id == tgt[1] for c in gen.ifs)
-                key_ok = len(tgt) == 2 and norm(v.key) == f"{tgt[0]}.name"
-                val_ok = len(tgt) == 2 and (norm(v.value) == tgt[1] or norm(v.value) == "True")
-                ok_flags = src_ok and filt_ok and key_ok and val_ok
-            elif isinstance(k, ast.Constant) and k.value == "local_parent":
-                ok_lp = isinstance(v, ast.IfExp) and norm(v.body) == "self" and acl_flag_of_test(v.test) == {"local_only"} and norm(v.orelse) == "None"
+        db = cf.dict_build(r)
+        if db is None:
+            continue
+        fams = db["families"]
+        ok_flags = len(fams) == 1 and fams[0]["src"] in ("self.acl.items()", "self._self_flags.items()") and fams[0]["key"] == "V0.name" and fams[0]["val"] in ("V1", "True") and MM.equivalent(fams[0]["kept"], "V1")
+        lp = db["const"].get("'local_parent'")
+        ok_lp = isinstance(lp, ast.IfExp) and set(db["const"]) == {"'local_parent'"}
+        if ok_lp:
+            a_, neg = MM.polarity(lp.test)
+            yes, no = (lp.orelse, lp.body) if neg else (lp.body, lp.orelse)
+            ok_lp = norm(yes) == "self" and acl_flag_of_test(a_) == {"local_only"} and norm(no) == "None"
     rep.check(ok_flags, "C15.R1", fi.qual, "_child_node_kwargs passes on every set flag", fi.loc(), construct="flag comprehension of _child_node_kwargs",
               message="_child_node_kwargs does not pass every set ACL flag to child nodes (expected {k.name: v for k, v in self.acl.items() if v})")
     rep.check(ok_lp, "C15.R1", fi.qual, "_child_node_kwargs passes self as local parent iff local_only", fi.loc(), construct="local_parent of _child_node_kwargs",
@@ -346,8 +346,13 @@ def r1_child_kwargs(P, rep, ctx):
     rep.check("self._self_flags: NodeAclFlags = flags" in txt or "self._self_flags = flags" in txt, "C15.R1", init.qual, "__init__ stores the parsed flags", init.loc(),
               construct="flag store in __init__", message="MetadorNode.__init__ does not store the parsed access flags")
     paf = P.func(f"{W}.MetadorNode._parse_access_flags")
-    rets = [x.value for x in walk_local(paf.node) if isinstance(x, ast.Return)]
-    ok = len(rets) == 1 and isinstance(rets[0], ast.DictComp) and norm(rets[0].generators[0].iter) in ("iter(NodeAcl)", "NodeAcl") and norm(rets[0].value).startswith("kwargs.pop(flag.name, False")
+    pf = F(ctx, paf)
+    kw = paf.params[0]
+    ok = False
+    prets = [v for _, v in pf.returns() if v is not None]
+    if len(prets) == 1:
+        db = pf.dict_build(prets[0])
+        ok = db is not None and not db["const"] and len(db["families"]) == 1 and db["families"][0]["src"] in ("iter(NodeAcl)", "NodeAcl", "list(NodeAcl)") and db["families"][0]["key"] == "V0" and db["families"][0]["val"] == f"{kw}.pop(V0.name, False)" and MM.equivalent(db["families"][0]["kept"], "True")
     rep.check(ok, "C15.R1", paf.qual, "_parse_access_flags builds a fresh dict over all NodeAcl members (default False)", paf.loc(), construct="_parse_access_flags",
               message="_parse_access_flags is not `{flag: kwargs.pop(flag.name, False) for flag in NodeAcl}` (fresh dict per node, all members)")
 
@@ -406,9 +411,11 @@ def r1_query(P, rep, ctx):
         ok = xt in START or t in accs or any(t == f"iter({a_})" for a_ in accs) or how.startswith("callback")
         rep.check(ok, "C15.R1", q.qual, f"query hands out only the start node / collected nodes ({how})", q.loc(st), construct=f"{how} value of query",
                   message=f"MetadorContainerTOC.query hands out {t}")
-    coll = q.nested.get("collect_nodes")
+    # the callback handed to visititems (whatever it is called)
+    cbs = [b["__cb"].id for i, c, b in vis_s if isinstance(b["__cb"], ast.Name) and b["__cb"].id in q.nested]
+    coll = q.nested.get(cbs[0]) if cbs else None
     if coll is None:
-        raise AnalysisError("MetadorContainerTOC.query.collect_nodes not found")
+        raise AnalysisError("MetadorContainerTOC.query: the collector passed to visititems is not a local function")
     appends = [c for c in local_calls(coll.node) if call_attr(c) == "append"]
     ok = bool(appends) and all(norm(c.args[0]) == coll.params[1] for c in appends)
     rep.check(ok, "C15.R1", coll.qual, "collector appends exactly the node passed by visititems", coll.loc(), construct="collect_nodes append",
